@@ -333,7 +333,18 @@ func init() {
 				for _, b := range f.Blocks {
 					for _, ins := range b.Instrs {
 						if ci, ok := ins.(ssa.CallInstruction); ok {
+							// structural recursion over an acyclic chain (an error calling Error()/Unwrap() of the cause it
+							// wraps): bounded by the length of the chain, not by the input
+							structural := false
+							if ci.Common().IsInvoke() && len(f.Params) > 0 {
+								if _, ok := loadOfAnyField(ci.Common().Value, f.Params[0]); ok && ci.Common().Method.Name() == f.Name() {
+									structural = true
+								}
+							}
 							for _, cl := range c.P.Callees(f, ci) {
+								if structural && cl == f {
+									continue
+								}
 								if inMod[cl] && !seen[cl] {
 									seen[cl] = true
 									adj[f] = append(adj[f], cl)
@@ -1039,4 +1050,18 @@ func (r *nnResult) at(b *ssa.BasicBlock, idx int) map[nnKey]bool {
 		r.transfer(st, b.Instrs[i])
 	}
 	return st
+}
+
+
+// loadOfAnyField: v is *(&p.<field>) for the given parameter p.
+func loadOfAnyField(v ssa.Value, p *ssa.Parameter) (string, bool) {
+	ld, ok := v.(*ssa.UnOp)
+	if !ok || ld.Op != token.MUL {
+		return "", false
+	}
+	fa, ok := ld.X.(*ssa.FieldAddr)
+	if !ok || fa.X != ssa.Value(p) {
+		return "", false
+	}
+	return fieldElem(fa.X.Type(), fa.Field), true
 }
